@@ -125,6 +125,11 @@ class G:
         t = self.tok("F")
         if r.chance(1, 6):
             t = t + "." + self.tok("F")
+        if self.exotic and r.chance(1, 14):
+            # a user field spelled like a command key / a namespace-bearing key
+            t = r.choice(["collection", "count", "ns", "update", "find", "delete", "aggregate", "coll", "from", "into", "db"])
+            self.fields.append(t)
+            return t
         if self.exotic and r.chance(1, 12):
             # names that contain an IPv4 address, look like a command key, or like an operator argument
             t = t + r.choice([".192.168.1.10", "_10.0.0.7:27017", "10.1.2.3"])
